@@ -34,7 +34,8 @@ CONFIGS["C43"] = dict(
     prop="C43", engine="grants-hist", pkg="internal/server/tables", harness="C43",
     level="exploration",
     level_text="seeded histories of grant / revoke (per user, DSN, table, permission subset) by the administrator interleaved "
-               "with row reads, inserts, updates, deletes and table drops by three users on two restricted DSNs (same table "
+               "with row reads, inserts, updates, deletes (plain and abstract row-set form), upserts of existing rows, the same operations as tasks of a "
+               "@transaction script (incl. SQL text) and table drops by three users on two restricted DSNs (same table "
                "names) and an unrestricted DSN, table re-creation, cache purges and time advances past cache lifetimes, through the real router, table "
                "routes and handlers, dsns service, permission store (SQLite) and caches; each response and the table contents "
                "before/after are compared with a model of the grant set: a non-administrator's request on a restricted DSN "
@@ -48,10 +49,12 @@ CONFIGS["C43"] = dict(
     quick=dict(runs=600, per_proc=40, budget_s=240),
     thorough=dict(runs=40000, per_proc=400, budget_s=1500),
     det_seeds=16,
-    rule="histories of 10-34 operations over users {admin,u1,u2} x DSNs {restricted, unrestricted} x tables {t1,t2}; "
+    rule="histories of 10-34 operations over users {admin,u1,u2} x DSNs {2 restricted, 1 unrestricted} x tables {t1,t2}; row requests in plain / "
+         "abstract / upsert form, one in five as a one-task @transaction script (select, insert, update, delete, sql UPDATE, readrows DELETE..RETURNING; "
+         "u1 holds the ego.sql user permission, u2 does not); "
          "non-trivial = >=4 operations; distinct = distinct history hash",
     real=["router.ServeHTTP + authentication", "tables.AddStaticRoutes handlers (rows, table delete/create, permissions)", "dsns file service (in memory)", "permission store via resources on SQLite", "caches"],
     stubbed=["user store: in-memory AuthService (existing seam) with MinCost bcrypt hashes", "time: synctest fake clock", "sync: scheduling shim"],
     assumptions=["every user holds DSN-level read/write access, so that table grants are the deciding gate", "the permission store is available throughout (no faults in this engine, per the statement)"],
-    required_probes=["requests_that_must_be_refused", "requests_allowed_by_a_grant", "grants", "tables_dropped"],
+    required_probes=["requests_that_must_be_refused", "requests_allowed_by_a_grant", "grants", "tables_dropped", "upserts_of_existing_rows", "transaction_script_requests"],
 )
